@@ -86,7 +86,8 @@ theorem val_tail_eq : Gen.C15.valTail = C15E.valTail := by decide
 
 /-- constructor unwraps `model` and every `*model` key, `save` is guarded by `save_to_disk`, `Engine.train` writes on the
 main process only, `Engine.predict` never writes, no directory listing in the load path, missing keys raise,
-`load_models_from_file` passes `only_models=True`, the trainer checkpoints model / optimizer / lr_scheduler / scaler -/
+`load_models_from_file` passes `only_models=True`, `Engine.train` loads 'latest' only under `if resume:`, the trainer
+checkpoints model / optimizer / lr_scheduler / scaler -/
 theorem api_facts_wf : C15E.wfApi Gen.C15.apiFacts = true := by decide
 
 theorem guard_core (it c total : Nat) :
